@@ -9,6 +9,7 @@ import hashlib
 import json
 import os
 import random
+import re
 import subprocess
 import sys
 import concurrent.futures as cf
@@ -456,6 +457,28 @@ def run_overlay(spec, acc):
         shutil.rmtree(d, ignore_errors=True)
 
 
+def deep_image(obj, _depth=0):
+    """identity-free image of a compiled rulebook, every key and value of it (a field added to a rule while it is used shows)"""
+    import types as _ty
+    if isinstance(obj, dict):
+        return ("d", [(deep_image(k, _depth + 1), deep_image(v, _depth + 1)) for k, v in obj.items()])
+    if isinstance(obj, (list, tuple)):
+        return ("l", [deep_image(x, _depth + 1) for x in obj])
+    if isinstance(obj, (set, frozenset)):
+        return ("s", sorted(repr(deep_image(x, _depth + 1)) for x in obj))
+    if isinstance(obj, re.Pattern):
+        return ("re", obj.pattern, obj.flags)
+    if isinstance(obj, (_ty.FunctionType, _ty.BuiltinFunctionType, _ty.MethodType)):
+        return ("fn", getattr(obj, "__module__", ""), getattr(obj, "__qualname__", repr(obj)))
+    if isinstance(obj, (str, int, float, bool)) or obj is None:
+        return obj
+    return ("o", type(obj).__name__, repr(obj)[:200])
+
+
+def image_hash(obj):
+    return hashlib.sha1(repr(deep_image(obj)).encode()).hexdigest()
+
+
 def run_seq(spec, acc):
     from annet import rulebook
     from vf.props import c18
@@ -489,7 +512,7 @@ def run_seq(spec, acc):
         if synth:
             acc.count("rule_mutating_logic_jobs")
         rb = synth_rb(hw) if synth else rulebook.get_rulebook(hw)
-        snap = (plain(old), plain(new), c18.R_hash(c18.rb_signature(rb)))
+        snap = (plain(old), plain(new), c18.R_hash(c18.rb_signature(rb)), image_hash(rb))
         got = compute(hw, old, new, acl, synth, job.get("refs"))
         if job.get("refs"):
             acc.count("reference_tracker_jobs")
@@ -509,7 +532,8 @@ def run_seq(spec, acc):
                 acc.count("collecting_logic_jobs_refused")
         if job.get("acl") and any(job["acl"] == pr[0]["acl"] for pr in ACL_PAIRS):
             acc.count("shared_compiled_acl_jobs")
-        after = (plain(old), plain(new), c18.R_hash(c18.rb_signature(synth_rb(hw) if synth else rulebook.get_rulebook(hw))))
+        rb_after = synth_rb(hw) if synth else rulebook.get_rulebook(hw)
+        after = (plain(old), plain(new), c18.R_hash(c18.rb_signature(rb_after)), image_hash(rb_after))
         acc.count("jobs_in_sequences")
         acc.count("snapshots_compared", 3)
         acc.case([jid, ids[:pos]], nontrivial=(pos >= 1 and bool(got.get("cmds"))))
@@ -520,6 +544,9 @@ def run_seq(spec, acc):
             return
         if snap[2] != after[2]:
             acc.violation("C20/compiled-rulebook-modified", "computing a patch changed the compiled (cached, shared) rulebook", w)
+            return
+        if snap[3] != after[3]:
+            acc.violation("C20/compiled-rulebook-modified/scratch-data", "computing a patch left data behind inside the compiled (cached, shared) rulebook", w)
             return
         if any(k.startswith("error") and v in ("AttributeError", "NameError", "ImportError", "TypeError") and base[jid].get(k) == v for k, v in got.items()) and job["kind"] != "corpus":
             raise RuntimeError("harness problem (the job fails the same way alone in a fresh process): %r" % got)
